@@ -36,6 +36,17 @@ def run_vec_check(prop, tier, replay=None):
         r = subprocess.run([common.BIN, "vec", "--what", w, "--out", outp, "--scratch", os.path.join(wd, "vscr"), "--tier", tier,
                             "--seed", str(seed())], capture_output=True, text=True, timeout=3000)
         if r.returncode != 0:
+            cur = outp + ".cur"
+            if os.path.exists(cur):
+                # the code under test killed the process (abort on allocation failure, stack overflow ...): that is data
+                vec = json.load(open(cur))
+                rp = save_replay(prop, {"vector": vec, "tags": [prop + ":process-aborted"], "stderr": r.stderr[-600:]})
+                print(f"VIOLATION property={prop} replay={rp}")
+                log(f"[{prop}]   the harness process died while executing {json.dumps(vec)[:300]}")
+                write_evidence(prop, tier, "model_checking",
+                               {"states": max(1, mc["distinct"]), "transitions": max(1, mc["states"]), "traces_validated_against_impl": 0,
+                                "samples": [vec], "aborted": True}, time.time() - t0, 1, ["process abort of the code under test is a violation"])
+                return 1
             raise ToolError(f"harness vec {w} failed: {r.stderr[-2000:]}")
         traces.append(outp)
     t2 = time.time()
